@@ -3,14 +3,20 @@
 Models: random Hermitian tight-binding models from vlib.wbsys (2-3 Wannier functions, complex hoppings on the first
 shell plus 1-3 second-shell vectors, no symmetry at all: inversion and time reversal broken, arbitrary centres, 11
 lattice families, rotated), bulk 3D (24^3 k-points) or planar 2D (periodic=(T,T,F), 72^2 k-points, all centres in
-one plane so that no quantity depends on the confined direction).  An on-site ladder diag(0,D,2D) is raised in steps
-until the smallest direct gap on the harness' own mesh is >= 0.4 eV (no band touching => smooth integrands).
+one plane so that nothing depends on the confined direction).  H(k) = diag(0,s,2s) + T(k) with the on-site mixing and
+the hoppings rescaled to ||T(k)||_2 <= tau (drawn in [0.5,1] eV) and s = gap + 2 tau, so that every direct gap is
+>= gap (drawn in [0.6,1.5] eV) at *every* k by Weyl's inequality -- no band touching (a 3D two-band model has Weyl
+points generically; an 8^3 mesh does not see them, and with them the sea form converges like 1/N).
 Spin: either a random Hermitian SS(R) matrix or the real `set_spin_pairs` construction (two co-centred orbitals).
 Only internal terms (no AA/BB/CC matrices), as planned in DESIGN.
 
 One `wannierberri.run()` per case (serial, no refinement, no symmetry) with tetra=True, a FermiDiracSmoother
-(T in [1000,2000] K) and the Fermi grid [E_min-3kT, E_max+3kT] (64-96 points); judged are the smoothed tensors at the
-Fermi levels inside the band range (every judged level is >= 3kT away from the ends of the grid).
+(T in [1000,2000] K) and the Fermi grid [E_min-3kT, E_max+3kT] with 4*(nE-1)+1 points, nE in 64..96 (dE ~ 0.05-0.15 kT);
+judged are the smoothed tensors at the Fermi levels inside the band range (every judged level is >= 3kT away from the
+ends of the grid).  The Fermi grid has to be that dense: the smoother is a plain sum over the grid; with 64-96 points
+the sea/surface pairs of the nonlinear Drude tensor were off by up to 48 % (3D) and the f'' form by up to 30 % from
+the exact finite-temperature value (computed here once by FFT differentiation of the bands), with the dense grid
+all forms agree with each other and with that value to a few %.
 
 Oracle = the documented identities (integration by parts over the periodic BZ, f = Fermi function):
     Ohmic        int d_b v_a f                 = - int v_a v_b f'
@@ -18,15 +24,21 @@ Oracle = the documented identities (integration by parts over the periodic BZ, f
     GME spin     - int d_a s_m f    [a,m]      =   int v_a s_m f'
     GME orb      - int d_a m_m f    [a,m]      =   int v_a m_m f' ,   m = H + G - 2 E_F Omega
     NLDrude      - int d_b d_c v_a f           =   int d_b v_a v_c f'  = -(1/2) int v_a v_b v_c f''
-i.e. the two calculators of a pair must return the same numbers in the same index order.  The f'' form is evaluated
-without the tetrahedron method (its second-derivative tetrahedron weights converge only linearly: 16-26 % off at 96^2
-where the plain sum is at 3 %) and, when use_factor=False (constant factors reduced to their sign), multiplied by the
-documented 1/2 by the harness.
+i.e. the two calculators of a pair must return the same numbers in the same index order.
+The f'' form (NLDrude_Fermider2) is judged in 2D only, from a separate run without the tetrahedron method on a twice
+finer k-grid (144^2): its tetrahedron weights (second derivative, piecewise linear and discontinuous; in 2D the corner
+energies are pairwise degenerate and the delta-function parts are lost) converge only linearly (16-26 % off at 96^2),
+and the plain sum needs k-spacing x velocity << kT, which 24^3 points do not give (3D: up to 95 % off while changing
+by 1 % between 16^3 and 24^3).  With use_factor=False (constant factors reduced to their sign) the documented 1/2
+of that calculator is applied by the harness.
 
 Measure: rel = max|A-B| / max(max|A|, max|B|) over the judged levels and all components.
 Verdict per pair (DESIGN 6): rel <= PASS -> agrees; PASS < rel <= CLEAR -> inside the margin: inconclusive, never a
-violation; rel > CLEAR -> violation.  Calibration on the unchanged tree (see ASSUMPTIONS) gave rel <= 1.3 % for the
-sea/surface pairs and <= 6 % for the f'' form, PASS = 5 % / 15 %, CLEAR = 25 % / 35 %.
+violation; rel > CLEAR -> the case is re-run on a coarser grid (16^3 / 48^2, f'' form 72^2) and a violation is reported
+only if the two calculators changed by <= CONV (sum of both, relative) between the grids, otherwise "not converged"
+(inconclusive).  Calibration on the unchanged tree, final generator, 18 models: Ohmic/BerryDipole/GME pairs rel <=
+1.7 %, NLDrude sea/surface <= 7.5 %, f'' form (2D) <= 6.4 %; PASS = 5 % / 15 % / 15 %, CLEAR = 25 % / 35 % / 35 %,
+CONV = 6 %.  (The f'' status is reported as a label and never makes the case inconclusive.)
 Discrimination guard (non-triviality): the sign-flipped partner is off by ~2 for every pair; for the pairs whose
 tensor is not symmetric (Berry dipole, both gyrotropic tensors) the transposed partner must be off by > 0.3,
 otherwise the case cannot see an index swap and is counted trivial.
@@ -42,23 +54,29 @@ from vlib import wbsys
 
 PROPERTY_ID = "C28"
 RULE = ("random symmetry-free 2-3 band tight-binding models (first + second shell, arbitrary centres, 11 lattice "
-        "families) x {3D 24^3, planar 2D 72^2} x spin matrix {random Hermitian SS(R), set_spin_pairs} x T in "
-        "[1000,2000] K x use_factor, one run() with the six documented sea/surface(/f'') pairs, tetra=True + "
-        "Fermi-Dirac smoother; non-trivial = every pair agreed within PASS and, for the non-symmetric tensors, the "
-        "transposed partner is off by > 0.3 (sign flip is always off by ~2); distinct = distinct generated case")
+        "families, every direct gap >= 0.6 eV by construction) x {3D 24^3, planar 2D 72^2} x spin matrix {random "
+        "Hermitian SS(R), set_spin_pairs} x T in [1000,2000] K x use_factor, one run() with the documented "
+        "sea/surface pairs (Ohmic, Berry dipole, GME spin, GME orbital, nonlinear Drude; in 2D also the f'' form), "
+        "tetra=True + Fermi-Dirac smoother on a dense Fermi grid; non-trivial = every sea/surface pair agreed within "
+        "PASS and, for the non-symmetric tensors, the transposed partner is off by > 0.3 (a sign flip is always off "
+        "by ~2); distinct = distinct generated case")
 ASSUMPTIONS = ["internal terms only (kwargs_formula external_terms=False); models have no AA/BB/CC matrices",
-               "smallest direct gap >= 0.4 eV on the harness' own 8^3 / 16^2 mesh (on-site ladder raised by construction)",
+               "every direct gap >= case['gap'] >= 0.6 eV at every k (Weyl's inequality on the rescaled model)",
                "2D models are planar (all centres share the out-of-plane coordinate): the identities need a k-integral "
                "along every differentiated direction",
-               "calibrated on the unchanged tree: sea/surface pairs rel <= 1.3 % (3D 24^3) and <= 0.5 % (2D 48^2..96^2), "
-               "f'' form (plain sum) <= 6 %; PASS 5 % / 15 %, violation only above 25 % / 35 % (DESIGN 6)",
-               "NLDrude_Fermider2 is run with tetra=False; with use_factor=False its dropped factor 1/2 is applied here"]
+               "Fermi grid 253-381 points (dE <= 0.15 kT): a coarser grid adds a quadrature error of the smoother itself",
+               "calibrated on the unchanged tree (18 models): sea/surface pairs rel <= 1.7 %, NLDrude <= 7.5 %, f'' form "
+               "(2D, plain sum, 144^2) <= 6.4 %; PASS 5/15/15 %, violation only above 25/35/35 % and only if both "
+               "calculators changed by <= 6 % between the coarse and the judged grid (DESIGN 6)",
+               "the f'' form is not judged in 3D (not resolvable at affordable grids); with use_factor=False its dropped "
+               "factor 1/2 is applied here"]
 MIN_NONTRIVIAL = {"quick": 2, "thorough": 10}
 
-PASS = {"default": 0.05, "nldrude": 0.10, "nldrude_d2": 0.15}
-CLEAR = {"default": 0.25, "nldrude": 0.35, "nldrude_d2": 0.35}
+# (PASS, CLEAR, CONV) per pair and dimension, see module docstring
+THRESH = {"default": (0.05, 0.25, 0.06), ("nldrude", 2): (0.15, 0.35, 0.06), ("nldrude", 3): (0.15, 0.35, 0.06),
+          ("nldrude_d2", 2): (0.15, 0.35, 0.06)}
+SECONDARY = {("nldrude_d2", 2)}     # its "inside margin"/"not converged" is a label, not a verdict on the case
 GUARD = 0.3
-CONV = 0.06      # sum of the two calculators' changes between the coarse and the judged grid that still counts as converged
 
 SHELL2_3D = [[1, 1, 0], [1, 0, 1], [0, 1, 1], [1, -1, 0], [1, 0, -1], [0, 1, -1], [1, 1, 1], [1, 1, -1]]
 SHELL2_2D = [[1, 1, 0], [1, -1, 0], [2, 0, 0], [0, 2, 0]]
@@ -124,16 +142,16 @@ def build_model(case):
     return model, float(E.min()), float(E.max()), gap, s
 
 
-D2_REFINE = 4      # the plain-sum f'' form bins the band energies on the Fermi grid: it gets a 4x finer grid (same end points)
+EF_REFINE = 4      # Fermi grid = 4*(nE-1)+1 points: the smoother is a plain sum over the grid, and the T=0 curves have van Hove
+#                    kinks/jumps, so a coarse Fermi grid adds a quadrature error of its own (measured: 30 % at dE = 0.3 kT for a
+#                    0.5 eV wide band, 1 % at dE = 0.075 kT) that would be mistaken for a sea/f'' disagreement
 
 
 def calculators(case, Ef, smoother, which="main"):
     from wannierberri.calculators import static
-    from wannierberri.smoother import FermiDiracSmoother
     kw = dict(Efermi=Ef, smoother=smoother, use_factor=bool(case["use_factor"]), tetra=True)
     if which == "d2":
-        Ef_fine = np.linspace(Ef[0], Ef[-1], D2_REFINE * (len(Ef) - 1) + 1)
-        kw.update(tetra=False, Efermi=Ef_fine, smoother=FermiDiracSmoother(Ef_fine, T_Kelvin=float(case["T"])))
+        kw.update(tetra=False)
         return dict(nldrude_d2=static.NLDrude_Fermider2(**kw))
     it = dict(kwargs_formula={"external_terms": False})
     return dict(
@@ -166,11 +184,10 @@ def run_once(system, case, Ef, smoother, NKdiv, NKFFT, scratch, tag, which="main
                  restart=False, file_Klist_path=os.path.join(scratch, "klist_" + tag), print_progress_step_time=1e9)
     data = {}
     for k, v in res.results.items():
-        step = D2_REFINE if k == "nldrude_d2" else 1
-        E = np.array(v.Energies[0])[::step]
+        E = np.array(v.Energies[0])
         if E.shape != Ef.shape or np.max(np.abs(E - Ef)) > 1e-9:
             raise Violation("fermi-grid", f"{k}: result is not given on the requested Fermi grid")
-        data[k] = np.array(v.dataSmooth, dtype=float)[::step]
+        data[k] = np.array(v.dataSmooth, dtype=float)
     return data
 
 
@@ -188,7 +205,7 @@ class Evaluation:
         if case["ss"] == "pairs":
             self.system.set_spin_pairs([(0, 1)])
         kT = float(case["T"]) * Boltzmann / elementary_charge
-        self.Ef = np.linspace(lo - 3 * kT, hi + 3 * kT, int(case["nE"]))
+        self.Ef = np.linspace(lo - 3 * kT, hi + 3 * kT, EF_REFINE * (int(case["nE"]) - 1) + 1)
         self.smoother = FermiDiracSmoother(self.Ef, T_Kelvin=float(case["T"]))
         self.grids = GRIDS[dim][case["grid"]]
         with scratch_dir() as d:
@@ -198,8 +215,8 @@ class Evaluation:
                 div2 = [2 * x if x > 1 else 1 for x in self.grids[0]]
                 self.data.update(run_once(self.system, case, self.Ef, self.smoother, div2, self.grids[1], d, "d2", "d2"))
         judged = np.where((self.Ef >= lo) & (self.Ef <= hi))[0]
-        if len(judged) < 20:
-            raise Inconclusive("fewer than 20 Fermi levels inside the band range")
+        if len(judged) < 80:
+            raise Inconclusive("fewer than 80 Fermi levels inside the band range")
         self.sl = slice(int(judged[0]), int(judged[-1]) + 1)
         self.info = dict(gap=gap, spacing=spacing, lo=lo, hi=hi, kT=kT, njudged=len(judged), NE1=int(self.smoother.NE1))
         self.out = {}
@@ -232,49 +249,49 @@ class Evaluation:
 def check(case):
     ev = Evaluation(case)
     out, info = ev.out, ev.info
-    margin, unconverged, blind = [], [], []
-    d2_status = "d2:agrees" if "nldrude_d2" in out else "d2:not-judged-in-3D"
+    dim = case["dim"]
+    margin, unconverged, blind, status = [], [], [], {}
     for name, _, _, tr in PAIRS:
         if name not in out:
+            status[name] = "not-judged-in-3D"
             continue
         r = out[name]
-        p_ok = PASS.get(name, PASS["default"])
-        p_clear = CLEAR.get(name, CLEAR["default"])
+        p_ok, p_clear, p_conv = THRESH.get((name, dim), THRESH["default"])
+        secondary = (name, dim) in SECONDARY
         if not np.isfinite(r["rel"]):
             raise Violation(f"{name}:not-finite", "result contains NaN/inf")
         if r["scale"] == 0:
             blind.append(name)
             continue
+        status[name] = "agrees"
         if r["rel"] > p_clear:
             cv = ev.conv(name)
-            if not cv <= CONV:
-                unconverged.append(name)
+            if not cv <= p_conv:
+                status[name] = "not-converged"
+                if not secondary:
+                    unconverged.append(name)
                 continue
             how = "sign" if r["flip"] < p_ok else ("index order" if (r["transp"] is not None and r["transp"] < p_ok) else "value")
             raise Violation(f"{name}:sea-vs-surface",
                             f"{name}: the two forms differ by {r['rel']:.3f} of the tensor scale ({how}; sign-flipped partner "
                             f"{r['flip']:.3f}, transposed partner {r['transp']}) although both changed by only "
-                            f"{cv:.3f} (sum) between the two grids; dim={case['dim']} T={case['T']} "
+                            f"{cv:.3f} (sum) between the two grids; dim={dim} T={case['T']} "
                             f"use_factor={case['use_factor']} gap>={case['gap']} judged levels={info['njudged']}")
         if r["rel"] > p_ok:
-            margin.append(name)
+            status[name] = "inside-margin"
+            if not secondary:
+                margin.append(name)
         if tr is not None and r["transp"] <= GUARD:
             blind.append(name)
-    if "nldrude_d2" in unconverged:
-        unconverged.remove("nldrude_d2")
-        d2_status = "d2:not-converged"
-    if "nldrude_d2" in margin:
-        margin.remove("nldrude_d2")
-        d2_status = "d2:inside-margin"
     if unconverged:
         raise Inconclusive("not converged: " + ",".join(unconverged))
     if margin:
         raise Inconclusive("inside the margin: " + ",".join(margin))
     nt = not blind
-    worst = max(out[n]["rel"] for n, *_ in PAIRS if n not in ("nldrude_d2", "nldrude"))
-    return ok(nt, f"dim={case['dim']}", f"nw={case['nw']}", f"ss={case['ss']}", f"use_factor={case['use_factor']}",
+    worst = max(out[n]["rel"] for n in ("ohmic", "berrydipole", "gme_spin", "gme_orb"))
+    return ok(nt, f"dim={dim}", f"nw={case['nw']}", f"ss={case['ss']}", f"use_factor={case['use_factor']}",
               case["lat"]["kind"], "rel<1%" if worst < 0.01 else ("rel<2.5%" if worst < 0.025 else "rel<5%"),
-              "nldrude<5%" if out["nldrude"]["rel"] < 0.05 else "nldrude<10%", d2_status,
+              f"nldrude:{status['nldrude']}", f"f''form:{status['nldrude_d2']}",
               ("blind:" + ",".join(blind)) if blind else "all-pairs-discriminating")
 
 
